@@ -155,7 +155,11 @@ Definition obj_view (d : decomp) (x : obj) (v : view) : out :=
                  run (DTucker (tko_core o) (tko_factors o) skip tr) v'
   | OTt o, VValidate | OTr o, VValidate | OTtm o, VValidate => OSR (cho_shape o) (cho_rank o)
   | OTtm o, VEin VValidate => OSR (cho_shape o) (cho_rank o)
-  | OTt o, v' => run (DTt (cho_cores o)) v'
+  | OTt o, VTensor => rt (tt_to_tensor_from Zops (Ok (cho_shape o, cho_rank o)) (cho_cores o))
+  | OTt o, VUnfolded m => rt (tt_to_unfolded_from Zops (Ok (cho_shape o, cho_rank o)) (cho_cores o) m)
+  | OTt o, VVec => rt (tt_to_vec_from Zops (Ok (cho_shape o, cho_rank o)) (cho_cores o))
+  | OTt o, VNorm => rnorm (tt_to_tensor_from Zops (Ok (cho_shape o, cho_rank o)) (cho_cores o))
+  | OTt o, _ => OBad
   | OTr o, v' => run (DTr (cho_cores o)) v'
   | OTtm o, v' => run (DTtm (cho_cores o)) v'
   | OP2 o, VValidate => OSS (p2o_shape o) (p2o_rank o)
